@@ -253,7 +253,7 @@ def job_save(res, L_):
 
 # ---------------------------------------------------------------- (D)
 CONTENTS = [('empty', ''), ('digits', '0123456789'), ('alnum', 'HELLO WORLD'), ('latin1', 'M\xe4rchen'), ('bytes', b'\x00\xff\x10'), ('kanji-bytes', b'\x93\x5f\xe4\xaa'),
-            ('kanji-odd', b'\x93\x5f\xe4'), ('utf8-text', '€Ж'), ('int', 12345), ('negative-int', -7), ('parts', ['12', 'AB', b'\xff']), ('symbolic-3', None)]
+            ('kanji-odd', b'\x93\x5f\xe4'), ('hanzi-odd', b'\xba\xba\xd7'), ('hanzi-even', b'\xba\xba\xd7\xd6'), ('utf8-text', '€Ж'), ('int', 12345), ('negative-int', -7), ('parts', ['12', 'AB', b'\xff']), ('symbolic-3', None)]
 VERSIONS = ['SYM', None, 'M1', 'm2', 'M3', 'm4', 'M5', '', '41', '0', '1', '40', 'x', 1, 40, 0, -1, 41]
 ERRORS = [None, 'L', 'l', 'M', 'm', 'Q', 'q', 'H', 'h', 'x', '', 1, 0, 3, 2, 7]
 MODES = [None, 'numeric', 'NUMERIC', 'alphanumeric', 'byte', 'Byte', 'kanji', 'hanzi', 'x', '', 1, 2, 4, 8, 13, 3]
